@@ -43,6 +43,10 @@ claimed = {
    text="All 781 middleware chains of length 0-4 over {pass, modify-request, modify-result, short-circuit, fail} are enumerated from the run index (quick covers each at least twice); option form (one WithMiddleware call or repeated), server kind (Streamable post-sse/json/stateless-json, legacy SSE), 1-3 concurrent tools/call requests and a concurrent notification are drawn from the tape, and schedules are sampled. A reference interpreter of the statement predicts the per-request trace (m1-before..handler..m1-after) and the client-visible outcome (handler result with request/result modifications, short-circuit value, or JSON-RPC -32603 with the middleware's message); the instrumented middlewares' traces and what the real client returns must equal it; notifications must bypass the chain; the session seen is the request's own.",
    note="Chains longer than 4 and behaviours outside the five are not covered.",
    tech=TECH+"chain enumeration with a reference interpreter of the onion rule"),
+ "C17": dict(cat="fault_enumeration", ref="DESIGN.md §6 C17",
+   text="The simulated network plays an outcome script per attempt of one call - connection refused, reset, EOF, i/o timeout after 1-20 s, or a status from {400,401,403,404,405,408,409,413,422,429,500,501,502,503,504,507,511} with varied bodies - of length up to clamp(MaxRetries)+2, ending at the real server (success, or a JSON-RPC error answer for an unregistered tool); configurations are drawn from the boundary grid MaxRetries {-1,0,1,2,3,10,11} x InitialBackoff {0,1ms,100ms,7s,30s,31s} x Factor {0.5,1,1.5,2,10,11} x MaxBackoff {0,50ms,1s,5min,6min}, WithSimpleRetry, or no retry option; the caller's context is cancelled during a wait, exactly at a wait's end, or during an attempt; Streamable and legacy SSE clients. Oracle written from the statement: attempts <= clamp+1; an attempt follows only a failure the statement lists as transient (never a server answer or other 4xx); every wait equals min(Initial x Factor^(k-1), Max) of the clamped configuration exactly on the simulated clock; cancellation returns in zero simulated time with the context's error and no later attempt; Validate is idempotent and lands in the documented ranges; without the option exactly one attempt.",
+   note="Scripts are sampled, not exhaustively enumerated (the space of scripts up to length 12 over 21 outcomes is too large); network latency is zero in this scenario so that waits can be compared exactly. Only the only-if direction of the classification is demanded.",
+   tech=TECH+"scripted per-attempt network outcomes, exact back-off comparison on the simulated clock"),
 }
 NA = {
  "C18": "pure relation between two translators (schema generator vs encoding/json) over types and values: no schedule, clock, fault or interleaving for a simulator to decide (DESIGN.md §7)",
